@@ -50,7 +50,7 @@ impl std::fmt::Display for SelectorComponent {
             SelectorComponent::Class(name) => write!(f, ".{}", name),
             SelectorComponent::Element(name) => write!(f, "{}", name),
             SelectorComponent::Hash(val) => write!(f, "#{}", val),
-            SelectorComponent::Star => write!(f, " * "),
+            SelectorComponent::Star => write!(f, "*"),
             SelectorComponent::CombChild => write!(f, " > "),
             SelectorComponent::CombDescendant => write!(f, " "),
             SelectorComponent::NthChild { a, b, .. } => write!(f, ":nth-child({}n+{})", a, b),
